@@ -335,7 +335,16 @@ fn gen_source(rng: &mut Rng, big: bool) -> (String, &'static str, bool) {
     o.crlf = rng.chance(1, 8);
     o.unicode = rng.chance(1, 4);
     let (p, _) = jsgen::gen_program(rng, o);
-    match rng.below(26) {
+    match rng.below(29) {
+        26..=28 => {
+            let n = rng.range(1, 4);
+            let t = jsgen::gen_corpus(rng, n);
+            if rng.chance(1, 4) {
+                (jsgen::mutate_tokens(rng, &t, 2), "corpus-mutated", false)
+            } else {
+                (t, "corpus", true)
+            }
+        }
         24 | 25 => {
             let n = *rng.pick(jsgen::BOUNDARY);
             (jsgen::gen_wide(rng, n), "wide-expression", true)
